@@ -692,3 +692,76 @@ def lib_fields_eq(fields, a, b):
         else:
             cs.append(lib_eq(FT, x, y))
     return And(*cs) if cs else True
+
+
+# ------------------------------------------------------------------------------------------ expression reference parser
+class ExprSyntaxError(Exception):
+    pass
+
+
+def parse_literal(tok):
+    t = tok.lower()
+    while t and t[-1] in "ul" and not (t.startswith("0x") and t[-1] not in "ul"):
+        t = t[:-1]
+    if t.startswith("0x"):
+        return int(t[2:], 16)
+    if t.startswith("0b"):
+        return int(t[2:], 2)
+    if len(t) > 1 and t[0] == "0":
+        return int(t, 8)
+    return int(t, 10)
+
+
+BIN_LEVELS = [["|"], ["^"], ["&"], ["<<", ">>"], ["+", "-"], ["*", "/", "%"]]
+
+
+def parse_expr(tokens):
+    """Precedence climbing over a token list -> ast.  C precedence, left associativity; unary - ~ bind tightest."""
+    pos = [0]
+
+    def peek():
+        return tokens[pos[0]] if pos[0] < len(tokens) else None
+
+    def take():
+        t = peek()
+        pos[0] += 1
+        return t
+
+    def primary():
+        t = take()
+        if t is None:
+            raise ExprSyntaxError("unexpected end")
+        if t == "(":
+            e = level(0)
+            if take() != ")":
+                raise ExprSyntaxError("expected )")
+            return e
+        if t in ("-", "~"):
+            return ["un", t, primary()]
+        if t == "sizeof":
+            if take() != "(":
+                raise ExprSyntaxError("sizeof(")
+            name = take()
+            if take() != ")":
+                raise ExprSyntaxError("sizeof)")
+            return ["sizeof", name]
+        if t[0].isdigit():
+            return ["num", parse_literal(t), t]
+        if t[0].isalpha() or t[0] == "_":
+            return ["id", t]
+        raise ExprSyntaxError(t)
+
+    def level(i):
+        if i == len(BIN_LEVELS):
+            return primary()
+        left = level(i + 1)
+        while peek() in BIN_LEVELS[i]:
+            op = take()
+            right = level(i + 1)
+            left = ["bin", op, left, right]
+        return left
+
+    e = level(0)
+    if pos[0] != len(tokens):
+        raise ExprSyntaxError("trailing tokens")
+    return e
